@@ -228,6 +228,7 @@ def fam_hist(case):
     N, n = len(data), len(data[0])
     horizon = (4 * n * N + 8 * N + 8) * len(hist)
     logs = {}
+    snap = ref.unmodelled_snapshot()
     for g in hist:
         if g[0] == "twin" and any(
                 ref.on_threshold(ref.embed(row, g[1], g[2]), g[3])
@@ -280,9 +281,10 @@ def fam_hist(case):
             "evals": r["states"] * len(hist),
             "sig": hashlib.sha1(b"".join(sorted(r["sigs"]))).hexdigest(),
             "trivial": len(r["sigs"]) <= 1,
-            "stats": {"cut": r["cut"], "max_deviations": bound,
-                      "distinct_outputs": len(r["sigs"]),
-                      "cases_at_bound_%d" % bound: 1},
+            "stats": dict(ref.unmodelled_stats(snap), **{
+                "cut": r["cut"], "max_deviations": bound,
+                "distinct_outputs": len(r["sigs"]),
+                "cases_at_bound_%d" % bound: 1}),
             "states": r["states"], "transitions": r["transitions"],
             "traces": r["traces"]}
 
@@ -440,6 +442,7 @@ def fam_rp(case):
     bound = int(case.get("bound", 1))
     n = len(case["series"])
     horizon = 4 * n * case["nsur"] + 4
+    snap = ref.unmodelled_snapshot()
 
     def run_fn(cr):
         return _rp_run(case, cr, seed)
@@ -453,9 +456,10 @@ def fam_rp(case):
             "evals": 2 * r["states"],
             "sig": hashlib.sha1(b"".join(sorted(r["sigs"]))).hexdigest(),
             "trivial": False,
-            "stats": {"cut": r["cut"], "max_deviations": bound,
-                      "distinct_outputs": len(r["sigs"]),
-                      "cases_at_bound_%d" % bound: 1},
+            "stats": dict(ref.unmodelled_stats(snap), **{
+                "cut": r["cut"], "max_deviations": bound,
+                "distinct_outputs": len(r["sigs"]),
+                "cases_at_bound_%d" % bound: 1}),
             "states": r["states"], "transitions": r["transitions"],
             "traces": r["traces"]}
 
